@@ -36,7 +36,12 @@ func init() {
 	for _, p := range []string{"C01", "C02", "C03", "C05", "C06", "C07", "C08", "C09", "C10", "C11", "C12", "C13", "C14", "C15", "C16", "C17"} {
 		replayTargets[p] = [3]string{p + "_test.go", "", "TestVerifReplay" + p}
 	}
+	for _, p := range []string{"C01", "C03", "C08", "C09", "C10", "C13"} {
+		replayTargets[p] = [3]string{"bytelayer_test.go", "", "TestVerifReplay" + p}
+	}
 }
+
+var byteLayerProp = map[string]bool{"C01": true, "C03": true, "C08": true, "C09": true, "C10": true, "C13": true}
 
 var replayCache = map[string][]map[string]interface{}{}
 
@@ -80,8 +85,14 @@ func findFailingInput(o *checkOpts, prop string, r *obResult) map[string]interfa
 		}
 	}
 	if pick == nil {
-		// failing inputs exist but none exercises the function of this obligation
-		return nil
+		if !byteLayerProp[prop] {
+			// failing inputs exist but none exercises the function of this obligation
+			return nil
+		}
+		// byte-layer properties are statements about API outputs: any output violating the
+		// property on the current tree demonstrates it, whichever internal function is at fault
+		pick = fails[0]
+		pick["relevance"] = "property-level: the harness drives the public API and cannot name the internal function"
 	}
 	pick["replayed_with"] = fmt.Sprintf("go test -overlay (inject %s) -run %s in %s", tgt[0], tgt[2], filepath.Join(o.repo, tgt[1]))
 	pick["other_failing_inputs"] = len(fails) - 1
